@@ -1145,13 +1145,34 @@ class EventSeriesSpec(Spec):
         pass
 
 
+class CouplingSpec(Spec):
+    name = "CouplingAnalysis"
+    family = "funcnet"
+    net_level = False
+
+    def cls(self):
+        from pyunicorn.funcnet.coupling_analysis import CouplingAnalysis
+        return CouplingAnalysis
+
+    def gen_model(self, r):
+        n = r.randrange(2, 5)
+        return {"n": n, "X": {"k": "series", "T": r.randrange(30, 50), "n": n,
+                              "s": r.randrange(10 ** 9)}}
+
+    def construct(self, m):
+        return self.cls()(mat(m["X"]), silence_level=3)
+
+    def post(self, obj, m):
+        pass
+
+
 SPECS = [NetworkSpec(), InteractingSpec(), GeoSpec(), SpatialSpec(),
          ResSpec(), ClimateSpec(), TsonisSpec(), SpearmanSpec(),
          MutualInfoSpec(), PartialSpec(), HavlinSpec(), HilbertSpec(),
          CoupledSpec(), ESCNSpec(), ISRNSpec(),
          RPSpec(), RNSpec(), CRPSpec(), JRPSpec(),
          JRNSpec(), VGSpec(), SurrSpec(), ClimateDataSpec(), GeoGridSpec(),
-         GridSpec(), EventSeriesSpec()]
+         GridSpec(), EventSeriesSpec(), CouplingSpec()]
 BY_NAME = {s.name: s for s in SPECS}
 
 
